@@ -10,10 +10,12 @@ import (
 	"golang.org/x/tools/go/ssa"
 )
 
-// Edge is a CFG edge From -> From.Succs[Succ].
+// Edge is a CFG edge From -> From.Succs[Succ]. When Pred is non-nil the edge is meant only for executions that
+// entered From through Pred (used when From's condition is a boolean phi: `x := a && b; if x`).
 type Edge struct {
 	From *ssa.BasicBlock
 	Succ int
+	Pred *ssa.BasicBlock
 }
 
 func (e Edge) To() *ssa.BasicBlock { return e.From.Succs[e.Succ] }
@@ -26,53 +28,108 @@ func blockIf(b *ssa.BasicBlock) *ssa.If {
 	return i
 }
 
-// reachWithout returns the blocks reachable from the entry of fn when the given edges are removed.
-func reachWithout(fn *ssa.Function, removed []Edge) map[*ssa.BasicBlock]bool {
+// phiCond: the block's If condition is (a negation of) a boolean phi defined in the same block.
+func phiCond(b *ssa.BasicBlock) (*ssa.Phi, bool) {
+	iff := blockIf(b)
+	if iff == nil {
+		return nil, false
+	}
+	v, flip := stripNot(iff.Cond)
+	phi, ok := v.(*ssa.Phi)
+	if !ok || phi.Block() != b || !isBoolType(phi.Type()) {
+		return nil, false
+	}
+	return phi, flip
+}
+
+func predIndex(b, from *ssa.BasicBlock) int {
+	idx := -1
+	for i, p := range b.Preds {
+		if p == from {
+			if idx >= 0 {
+				return -1 // ambiguous (both branches of one If lead here)
+			}
+			idx = i
+		}
+	}
+	return idx
+}
+
+type rstate struct{ b, from *ssa.BasicBlock }
+
+// reachCore: forward reachability over (block, entered-from) states with the removed edges, pruning the infeasible
+// successor of a boolean-phi condition whose incoming value is a constant. scan is called once per visited state
+// with the index to start at and returns false to stop propagation from that block.
+func reachCore(starts []rstate, startIdx int, removed []Edge, scan func(b *ssa.BasicBlock, start int) bool) map[*ssa.BasicBlock]bool {
 	rm := map[Edge]bool{}
 	for _, e := range removed {
 		rm[e] = true
 	}
-	seen := map[*ssa.BasicBlock]bool{}
-	if len(fn.Blocks) == 0 {
-		return seen
-	}
-	stack := []*ssa.BasicBlock{fn.Blocks[0]}
-	seen[fn.Blocks[0]] = true
-	for len(stack) > 0 {
-		b := stack[len(stack)-1]
-		stack = stack[:len(stack)-1]
-		for i, s := range b.Succs {
-			if rm[Edge{b, i}] || seen[s] {
+	seen := map[rstate]bool{}
+	blocks := map[*ssa.BasicBlock]bool{}
+	var stack []rstate
+	expand := func(st rstate) {
+		phi, flip := phiCond(st.b)
+		for i, s := range st.b.Succs {
+			if rm[Edge{st.b, i, nil}] {
 				continue
 			}
-			// an If with both successors equal: removing one edge must not keep the other alive
-			seen[s] = true
-			stack = append(stack, s)
+			if phi != nil && st.from != nil {
+				if k := predIndex(st.b, st.from); k >= 0 {
+					if c, ok := boolConst(phi.Edges[k]); ok {
+						val := c != flip
+						if (i == 0) != val {
+							continue
+						}
+					}
+					if rm[Edge{st.b, i, st.from}] {
+						continue
+					}
+				}
+			}
+			stack = append(stack, rstate{s, st.b})
 		}
 	}
-	return seen
+	for _, s := range starts {
+		if startIdx > 0 {
+			// partial first block: not marked visited (it may be re-entered from the top through a loop)
+			if scan == nil || scan(s.b, startIdx) {
+				expand(s)
+			}
+			continue
+		}
+		stack = append(stack, s)
+	}
+	for len(stack) > 0 {
+		st := stack[len(stack)-1]
+		stack = stack[:len(stack)-1]
+		if phi, _ := phiCond(st.b); phi == nil {
+			st.from = nil
+		}
+		if seen[st] {
+			continue
+		}
+		seen[st] = true
+		blocks[st.b] = true
+		if scan != nil && !scan(st.b, 0) {
+			continue
+		}
+		expand(st)
+	}
+	return blocks
+}
+
+// reachWithout returns the blocks reachable from the entry of fn when the given edges are removed.
+func reachWithout(fn *ssa.Function, removed []Edge) map[*ssa.BasicBlock]bool {
+	if len(fn.Blocks) == 0 {
+		return map[*ssa.BasicBlock]bool{}
+	}
+	return reachCore([]rstate{{fn.Blocks[0], nil}}, 0, removed, nil)
 }
 
 // reachFrom returns blocks reachable from block start (inclusive) with edges removed.
 func reachFrom(start *ssa.BasicBlock, removed []Edge) map[*ssa.BasicBlock]bool {
-	rm := map[Edge]bool{}
-	for _, e := range removed {
-		rm[e] = true
-	}
-	seen := map[*ssa.BasicBlock]bool{start: true}
-	stack := []*ssa.BasicBlock{start}
-	for len(stack) > 0 {
-		b := stack[len(stack)-1]
-		stack = stack[:len(stack)-1]
-		for i, s := range b.Succs {
-			if rm[Edge{b, i}] || seen[s] {
-				continue
-			}
-			seen[s] = true
-			stack = append(stack, s)
-		}
-	}
-	return seen
+	return reachCore([]rstate{{start, nil}}, 0, removed, nil)
 }
 
 // ---------------------------------------------------------------------------------------------
@@ -238,13 +295,14 @@ func nilCond(cond ssa.Value, match func(ssa.Value) bool) int {
 // edgeFor converts a polarity on block b's If into the pass edge.
 func edgeFor(b *ssa.BasicBlock, pol int) Edge {
 	if pol > 0 {
-		return Edge{b, 0}
+		return Edge{b, 0, nil}
 	}
-	return Edge{b, 1}
+	return Edge{b, 1, nil}
 }
 
 // condEdges enumerates, for every If in fn, the pass edge decided by `classify`:
 // classify returns +1 when the guard holds on the true edge, -1 on the false edge, 0 if unrelated.
+// A condition that is a boolean phi (`x := a && b; if x`) is classified per incoming value.
 func condEdges(fn *ssa.Function, classify func(cond ssa.Value, at *ssa.If) int) []Edge {
 	var res []Edge
 	for _, b := range fn.Blocks {
@@ -254,6 +312,26 @@ func condEdges(fn *ssa.Function, classify func(cond ssa.Value, at *ssa.If) int) 
 		}
 		if pol := classify(iff.Cond, iff); pol != 0 {
 			res = append(res, edgeFor(b, pol))
+			continue
+		}
+		if phi, flip := phiCond(b); phi != nil {
+			for k, e := range phi.Edges {
+				if _, isC := boolConst(e); isC {
+					continue
+				}
+				pol := classify(e, iff)
+				if pol == 0 {
+					continue
+				}
+				if flip {
+					pol = -pol
+				}
+				ed := edgeFor(b, pol)
+				ed.Pred = b.Preds[k]
+				if predIndex(b, ed.Pred) == k {
+					res = append(res, ed)
+				}
+			}
 		}
 	}
 	return res
@@ -427,9 +505,6 @@ func (g *CallGuard) establishes(p *Program, h *ssa.Function, depth, maxd int) bo
 	}
 	g.seen[h] = map[bool]bool{true: false} // cycle guard
 	edges := g.edges(p, h, depth)
-	if len(edges) == 0 {
-		return false
-	}
 	live := reachWithout(h, edges)
 	ok := true
 	nsucc := 0
@@ -445,7 +520,23 @@ func (g *CallGuard) establishes(p *Program, h *ssa.Function, depth, maxd int) bo
 			continue
 		}
 		nsucc++
-		if live[b] {
+		if !live[b] {
+			continue
+		}
+		// the verdict of the guard call (or of a helper establishing it) is returned as is
+		direct := false
+		for _, v := range r.Results {
+			if !isErrorType(v.Type()) && !isBoolType(v.Type()) {
+				continue
+			}
+			if c, isV := isCallResult(v, -1, func(c *ssa.Call) bool { return g.verdictCall(p, c, depth, maxd) }); isV {
+				if g.matches(c) && isBoolType(v.Type()) && !g.Want {
+					continue // a negative bool guard returned directly would invert the meaning
+				}
+				direct = true
+			}
+		}
+		if !direct {
 			ok = false
 		}
 	}
@@ -457,7 +548,7 @@ func (g *CallGuard) establishes(p *Program, h *ssa.Function, depth, maxd int) bo
 }
 
 // returnMayBeSuccess: a return whose bool results are not constant false and whose error results are
-// not provably non-nil.
+// not provably non-nil at that point.
 func returnMayBeSuccess(r *ssa.Return) bool {
 	for _, v := range r.Results {
 		if isBoolType(v.Type()) {
@@ -466,7 +557,7 @@ func returnMayBeSuccess(r *ssa.Return) bool {
 			}
 		}
 		if isErrorType(v.Type()) {
-			if provablyNonNilError(v) {
+			if errNonNilAt(v, r.Block()) {
 				return false
 			}
 		}
@@ -474,29 +565,57 @@ func returnMayBeSuccess(r *ssa.Return) bool {
 	return true
 }
 
-func provablyNonNilError(v ssa.Value) bool {
+func provablyNonNilError(v ssa.Value) bool { return errNonNilBy(v, nil, 0) }
+
+// errNonNilAt: the error value v is non-nil whenever block b executes: by construction, or because b is reachable
+// only through an edge on which v != nil.
+func errNonNilAt(v ssa.Value, b *ssa.BasicBlock) bool { return errNonNilBy(v, b, 0) }
+
+func errNonNilBy(v ssa.Value, at *ssa.BasicBlock, depth int) bool {
+	if depth > 6 {
+		return false
+	}
 	switch x := v.(type) {
 	case *ssa.Const:
 		return false // nil
 	case *ssa.MakeInterface:
 		return true
-	case *ssa.Call:
-		n := calleeName(x)
-		switch n {
-		case "errors.New", "fmt.Errorf", "github.com/pkg/errors.New", "github.com/pkg/errors.Errorf",
-			"github.com/pkg/errors.Wrap", "github.com/pkg/errors.Wrapf", "github.com/pkg/errors.WithMessage":
-			// Wrap(nil) returns nil, but the repo only wraps inside err != nil branches; be conservative:
-			return n != "github.com/pkg/errors.Wrap" && n != "github.com/pkg/errors.Wrapf" && n != "github.com/pkg/errors.WithMessage"
+	case *ssa.UnOp:
+		if g, ok := x.X.(*ssa.Global); ok && isErrorType(x.Type()) && g.Pkg != nil {
+			return true // package-level error variable (Err...)
 		}
-	case *ssa.Phi:
-		for _, e := range x.Edges {
-			if !provablyNonNilError(e) {
-				return false
+	case *ssa.Call:
+		switch calleeName(x) {
+		case "errors.New", "fmt.Errorf", "github.com/pkg/errors.New", "github.com/pkg/errors.Errorf":
+			return true
+		case "github.com/pkg/errors.Wrap", "github.com/pkg/errors.Wrapf", "github.com/pkg/errors.WithMessage", "github.com/pkg/errors.WithStack":
+			if len(x.Call.Args) > 0 && errNonNilBy(x.Call.Args[0], x.Block(), depth+1) {
+				return true
 			}
 		}
-		return true
+	case *ssa.Phi:
+		all := len(x.Edges) > 0
+		for i, e := range x.Edges {
+			if !errNonNilBy(e, x.Block().Preds[i], depth+1) {
+				all = false
+			}
+		}
+		if all {
+			return true
+		}
 	}
-	return false
+	if at == nil {
+		return false
+	}
+	// dominated by a non-nil test of the same value
+	fn := at.Parent()
+	nonNilEdges := condEdges(fn, func(cond ssa.Value, _ *ssa.If) int {
+		return -nilCond(cond, func(y ssa.Value) bool { return y == v })
+	})
+	if len(nonNilEdges) == 0 {
+		return false
+	}
+	return !reachWithout(fn, nonNilEdges)[at]
 }
 
 // EdgeGuard is a guard given directly by a classifier over If conditions.
